@@ -274,6 +274,21 @@ pub fn gen_sym_world(rng: &mut Rng, idx: usize) -> SymWorld {
       mods[i].own.push(name);
     }
   }
+  // a cycle of named re-exports that passes through a star re-export: i names it from t, t has it
+  // through `export *` from u, u names it from i. Nothing declares it; go-to-definition must come back
+  if rng.chance(1, 4) && mods.len() >= 3 {
+    let n = mods.len();
+    let i = rng.below(n);
+    let t = (i + 1 + rng.below(n - 1)) % n;
+    let u = (0..n).find(|x| *x != i && *x != t).unwrap();
+    let name = format!("scyc{}", idx % 89);
+    mods[i].text.push_str(&format!("export {{ {} }} from \"./m{}.ts\";\n", name, t));
+    mods[t].text.push_str(&format!("export * from \"./m{}.ts\";\n", u));
+    mods[t].stars.push(Some(u));
+    mods[u].text.push_str(&format!("export {{ {} }} from \"./m{}.ts\";\n", name, i));
+    mods[i].own.push(name.clone());
+    mods[u].own.push(name);
+  }
   // a JSON module whose text begins and ends with white space
   if rng.chance(1, 3) {
     let n = mods.len();
